@@ -828,6 +828,24 @@ func (runInfo *runInfoStruct) runDeferStmt(stmt *ast.DeferStmt) {
 	if runInfo.err != nil {
 		return
 	}
+	// the arguments are the values at the defer statement: an argument that still
+	// refers to a slice element or struct field is copied now
+	for i, arg := range args {
+		inner := arg
+		if isRunVMFunction && arg.Type() == reflectValueType {
+			inner = arg.Interface().(reflect.Value)
+		}
+		if !inner.IsValid() || !inner.CanAddr() {
+			continue
+		}
+		value := reflect.New(inner.Type()).Elem()
+		value.Set(inner)
+		if isRunVMFunction && arg.Type() == reflectValueType {
+			args[i] = reflect.ValueOf(value)
+		} else {
+			args[i] = value
+		}
+	}
 
 	runInfo.defers = append(runInfo.defers, capturedFunc{
 		fn:        f,
